@@ -11,6 +11,7 @@ import Jrpc.Corr
 import Jrpc.Cancel
 import Jrpc.Keepalive
 import Jrpc.Redial
+import Jrpc.Forwarder
 /-
   Jrpc.Ops — dispatch of driver operations onto the model's executable definitions.
 -/
@@ -308,6 +309,20 @@ def opRedial (j : Json) : R Json := do
                      ("dials", Json.arr (s.dials.reverse.map (fun p => Json.arr #[(p.1 : Json), (p.2 : Json)])).toArray),
                      ("up", decide (s.pc = .up)), ("gone", s.gone)]
 
+/-- op "forwarder": the forwarder events (registration, value, close) of one server-role connection. -/
+def opForwarder (j : Json) : R Json := do
+  let es ← (arrD j "events").mapM (fun e => do
+    let hp ← nat e "hp"
+    let id ← nat e "id"
+    match (← str e "e") with
+    | "reg" => return Forwarder.Ev.reg hp id
+    | "val" => return Forwarder.Ev.val hp id
+    | "close" => return Forwarder.Ev.close hp id
+    | x => throw s!"bad forwarder event {x}")
+  let (s, refused) := replay Forwarder.step? {} es
+  return Json.mkObj [("accepted", refused.isNone), ("refusedAt", optJ (fun (n : Nat) => (n : Json)) refused),
+                     ("open", s.cases.length)]
+
 /-- op "retryloop": the method-level retry loop over the outcomes of its attempts. -/
 def opRetryLoop (j : Json) : R Json := do
   let outs ← (arrD j "outs").mapM (fun o => do
@@ -576,6 +591,7 @@ def run (j : Json) : R Json := do
   | "handle" => opHandle j
   | "wscall" => opWsCall j
   | "redial" => opRedial j
+  | "forwarder" => opForwarder j
   | "retryloop" => opRetryLoop j
   | "agree" => opAgree j
   | "perm" => opPerm j
